@@ -66,7 +66,9 @@ def run_judge(judge, kept, obs_text, workdir, tag, timeout=3000):
             f.write("\n".join(c) + "\n")
     with open(of, "w") as f:
         f.write(obs_text)
-    rc, out = common.sh([judge, cf, of], timeout=timeout)
+    # the verified procedures are worst-case exponential: cap the judge's address space so that a blow-up inside
+    # one time budget becomes Out_of_memory (caught: that check is UNDECIDED) instead of taking the machine down
+    rc, out = common.sh("ulimit -v 6000000; exec %s %s %s" % (judge, cf, of), timeout=timeout)
     res, stat, cov = [], {}, {}
     for l in out.split("\n"):
         if l.startswith("FAIL ") or l.startswith("UNDECIDED "):
